@@ -1,4 +1,5 @@
-import Firefly.Proof.VmmSetup
+import Firefly.Proof.VmmSetupFull
+import Firefly.Proof.VmmBoot
 import Firefly.Gen.C05
 /-!
 # C05 — Kernel address space maps each loaded section exactly, with W^X permissions
@@ -46,19 +47,12 @@ theorem section_flags_wx (sf : W) :
   rw [sectionFlags_cases]
   by_cases h4 : (sf &&& 4#64) = 0#64 <;> by_cases h1 : (sf &&& 1#64) = 0#64 <;> simp [h4, h1] <;> decide
 
-/-- Full statement of `sections_exact` / `nothing_else`: after success, the new address space maps
-every page of every section with `addr ≥ off` to frame `(addr-off)/4096 + (p - addr/4096)` with
-`sectionFlags`, and maps no page that belongs to no such section or reservation.
-
-**Proved here (`_partial`)**, for every section list, offset, state and mapping function: the
-visitor of `setupPDTForKernel` issues *exactly* the requests `allSectionCalls off secs` in order
-(stopping at the first error) — per section with `addr ≥ off`, `sectionPageCount` consecutive pages
-from `pageOf addr` paired with consecutive frames from `(addr-off) >> 12`, all with
-`sectionFlags`; sections below `off` contribute no request.  That each request has the effect C04
-states on the (inactive) new table, and hence the `AS`-level statement, is carried by C04's
-theorems for existing levels and by the correspondence run + the oracle clauses `sections-exact`,
-`w-xor-x`, `nothing-else` for new levels. -/
-theorem sections_exact_partial (mp : MapFn) (off : W) (secs : List Section) (err : Nat) (st : St) :
+/-- Request level: for every section list, offset, state and mapping function, the visitor of
+`setupPDTForKernel` issues *exactly* the requests `allSectionCalls off secs` in order (stopping at
+the first error) — per section with `addr ≥ off`, `sectionPageCount` consecutive pages from
+`pageOf addr` paired with consecutive frames from `(addr-off) >> 12`, all with `sectionFlags`;
+sections below `off` contribute no request. -/
+theorem section_requests_exact (mp : MapFn) (off : W) (secs : List Section) (err : Nat) (st : St) :
     visitSectionsG mp off secs err st = seqCalls mp (allSectionCalls off secs) err st ∧
     (∀ s, sectionCalls off s =
       (run (pageOf s.addr) ((s.addr - off) >>> Firefly.Gen.C04.pageShift) (sectionPageCount s)).map
@@ -68,7 +62,7 @@ theorem sections_exact_partial (mp : MapFn) (off : W) (secs : List Section) (err
   ⟨visitSectionsG_eq mp off secs err st, fun _ => rfl, fun page frame n i hi => run_get page frame n i hi⟩
 
 /-- sections outside the kernel's virtual range are left alone: they contribute no mapping request -/
-theorem nothing_else_partial (off : W) (secs : List Section) :
+theorem below_offset_no_request (off : W) (secs : List Section) :
     allSectionCalls off secs = allSectionCalls off (secs.filter fun s => !(s.addr < off)) ∧
     (∀ s, s.addr < off → allSectionCalls off [s] = []) := by
   constructor
@@ -88,7 +82,75 @@ theorem activated (st : St) (off : W) (secs : List Section) (st' : St)
     ∃ f rest, st.free = f :: rest ∧ st'.cr3 = frameAddr f :=
   setup_activated st off secs st' h
 
-/-! non-vacuity -/
+/-- **setup_refines — `setupPDTForKernel` at the level of address spaces.**  Boot address space well
+formed (`Good`, CR3 = `A<<12`), guard not armed yet, temporary mapping not refused, section pages and
+reserved pages outside the recursive slot, reserved pages not the temporary page.  The call never
+faults.  On success: CR3 = `P<<12` with `P` the first frame the allocator handed out (= `kernelPDT`);
+`P`'s tables are a well-formed tree; every reserved page was mapped at boot; and the new address
+space is *exactly* the empty address space with the requests `setupCalls` (sections, then
+reservations) applied in order.  On failure CR3 is unchanged and the error is the allocator's, the
+guard's or `ErrInvalidMapping` (an unmapped reservation). -/
+theorem setup_refines {st : St} {A : W} {ownA : Own} (g : Good st (A <<< 12) ownA) (hcr3 : st.cr3 = A <<< 12)
+    (hfa : FrameOK A) (htf : st.tmpFail = false) (hprot : st.protect = false) (off : W) (secs : List Section)
+    (husec : ∀ c ∈ allSectionCalls off secs, UserVA (pageAddr c.1))
+    (hures : ∀ x ∈ resAddrs st.cursor (resCount st.cursor), UserVA x ∧ ¬SamePage x tempVA) :
+    ∃ code st', setupPDTForKernel st off secs = .ok (code, st') ∧
+      (code = 0 → ∃ P rest ownP', st.free = P :: rest ∧ st'.cr3 = P <<< 12 ∧ st'.kpdt = P ∧ FrameOK P ∧
+        Owned st'.mem (P <<< 12) ownP' ∧
+        (∀ x ∈ resAddrs st.cursor (resCount st.cursor), hwEntry st.mem (A <<< 12) x ≠ none) ∧
+        ∀ va, UserVA va → hwEntry st'.mem (P <<< 12) va =
+          applyCalls (fun _ => none) (setupCalls st.mem A off st.cursor secs) va) ∧
+      (code ≠ 0 → st'.cr3 = st.cr3 ∧ (code = eAlloc ∨ code = eInvalidMapping ∨ code = eRWZero)) :=
+  setup_full g hcr3 hfa htf hprot off secs husec hures
+
+/-- **sections_exact.**  Reading `setup_refines`: when no two requested pages coincide (sections do not
+share a page with one another or with a reservation), page `i` of every section with `addr ≥ off`
+is mapped — at every address of that page — by the entry `frame<<12 | sectionFlags`, with
+`frame = ((addr-off) >> 12) + i` (the physical page it was loaded at) and flags Present, RW iff
+writable, NX iff not executable, never User (`section_flags_wx`). -/
+theorem sections_exact (as : AS) (m : Mem) (A off cursor : W) (secs : List Section)
+    (hdist : (setupCalls m A off cursor secs).Pairwise (fun a b => ¬SamePage (pageAddr a.1) (pageAddr b.1)))
+    (hres : as = applyCalls (fun _ => none) (setupCalls m A off cursor secs))
+    (s : Section) (hs : s ∈ secs) (hoff : ¬ s.addr < off) (i : Nat) (hi : i < sectionPageCount s) (va : W)
+    (hva : SamePage va (pageAddr (pageOf s.addr + BitVec.ofNat 64 i))) :
+    as va = some (mkEntry (((s.addr - off) >>> Firefly.Gen.C04.pageShift) + BitVec.ofNat 64 i) (sectionFlags s.flags)) := by
+  have hm := sectionCall_mem off secs s hs hoff i hi
+  rw [hres, applyCalls_mem _ _ va hdist (List.mem_append_left _ hm) hva, if_neg]
+  rw [mkEntry_low 1#64 (by decide)]; exact sectionFlags_present _
+
+/-- **nothing_else.**  An address that lies on no requested page (no page of a section with
+`addr ≥ off`, no reserved page) is not mapped in the new address space; in particular sections below
+the kernel offset stay unmapped. -/
+theorem nothing_else (as : AS) (m : Mem) (A off cursor : W) (secs : List Section)
+    (hres : as = applyCalls (fun _ => none) (setupCalls m A off cursor secs)) (va : W)
+    (hno : ∀ c ∈ setupCalls m A off cursor secs, ¬SamePage va (pageAddr c.1)) : as va = none := by
+  rw [hres, applyCalls_not_mem _ _ va hno]
+
+/-- **reservations_kept.**  Every reserved page that was mapped at boot by entry `e` is mapped in the
+new address space to the same frame (`entry & frameMask = e & frameMask`), Present|RW. -/
+theorem reservations_kept (as : AS) (m : Mem) (A off cursor : W) (secs : List Section)
+    (hdist : (setupCalls m A off cursor secs).Pairwise (fun a b => ¬SamePage (pageAddr a.1) (pageAddr b.1)))
+    (hres : as = applyCalls (fun _ => none) (setupCalls m A off cursor secs))
+    (x : W) (hx : x ∈ resAddrs cursor (resCount cursor)) (e : W) (he : hwEntry m (A <<< 12) x = some e)
+    (va : W) (hva : SamePage va (pageAddr (pageOf x))) :
+    ∃ e', as va = some e' ∧ e' &&& hwMask = e &&& hwMask ∧ e' &&& 0xfff#64 = fPresent ||| fRW := by
+  have hm : resCall m A x ∈ setupCalls m A off cursor secs :=
+    List.mem_append_right _ (List.mem_map_of_mem hx)
+  have hoffs : (x &&& 0xfff#64).toNat < 4096 := by rw [and_fff]; omega
+  obtain ⟨hfo, hfr⟩ := frame_roundtrip e (x &&& 0xfff#64) hoffs
+  have hfl : FlagsOK (fPresent ||| fRW) := by unfold FlagsOK; decide
+  refine ⟨mkEntry (((e &&& hwMask) + (x &&& 0xfff#64)) >>> Firefly.Gen.C04.pageShift) (fPresent ||| fRW), ?_, ?_, ?_⟩
+  · have hcall : resCall m A x = (pageOf x, ((e &&& hwMask) + (x &&& 0xfff#64)) >>> Firefly.Gen.C04.pageShift, fPresent ||| fRW) := by
+      simp only [resCall, he]
+    rw [hcall] at hm
+    rw [hres, applyCalls_mem _ _ va hdist hm hva, if_neg]
+    rw [mkEntry_low 1#64 (by decide)]; decide
+  · rw [mkEntry_frame hfo hfl, hfr]
+  · rw [mkEntry_low 0xfff#64 (by decide)]; decide
+
+/-! non-vacuity: the boot state satisfies the hypotheses of `setup_refines` -/
+example : Good bootSt ((1#64) <<< 12) bootOwn ∧ bootSt.cr3 = (1#64) <<< 12 ∧ FrameOK 1#64 ∧ bootSt.protect = false :=
+  ⟨boot_good, by decide, by unfold FrameOK; decide, rfl⟩
 example : sectionPageCount { flags := 5, addr := 0xffff800000100ff0#64, size := 0x20#64 } = 2 := by decide
 example : sectionFlags 5#64 = 3#64 ∧ sectionFlags 0#64 = 0x8000000000000001#64 := by decide
 
